@@ -341,12 +341,67 @@ def run_dnp(cases):
     return p
 
 
+# ------------------------------------------------------------------------------------------
+# ONE encoder object, the same descriptor list under table versions that define an element differently (master 13 / 33: 014001;
+# local tables 98_0 versions 2 / 3: 005234, 008201): every order of <= 3 (4) encodes, each compared with the independently built
+# message -- what the encoder built for one table version must not be used for another
+ENC_HIST = [(13, None, [1001, 14001]), (33, None, [1001, 14001]), (13, (98, 0, 2), [1001, 5234, 8201]), (13, (98, 0, 3), [1001, 5234, 8201])]
+
+
+def _enc_hist_message(k):
+    version, local, descs = ENC_HIST[k]
+    B, D = tables.load(version, local)
+    buf, subs, notes, nb = codec.encode(B, D, descs, 1, False, lambda info: 3)
+    meta = {'master_table_version': version}
+    if local:
+        meta.update({'originating_centre': local[0], 'originating_subcentre': local[1], 'local_table_version': local[2]})
+    spec = message.Spec(edition=4, meta=meta, descs=descs, nsub=1, compressed=False)
+    b, info = message.build(spec, buf)
+    port = codec.encode.last_port
+    return b, message.flat_json(spec, CC.impl_input_values(subs, port, False))
+
+
+def run_encoder_histories(args):
+    import contextlib, io, itertools
+    from pybufrkit.encoder import Encoder
+    firsts, length = args
+    p = Partial()
+    msgs = [_enc_hist_message(k) for k in range(len(ENC_HIST))]
+    for first in firsts:
+        for rest in itertools.product(range(len(ENC_HIST)), repeat=length - 1):
+            h = (first,) + rest
+            for cc in (None, 2):
+                enc = Encoder(compiled_template_cache_max=cc) if cc else Encoder()
+                p.n['exec'] += 1
+                for step, k in enumerate(h):
+                    with contextlib.redirect_stderr(io.StringIO()):
+                        try:
+                            got = enc.process(msgs[k][1], wire_template_data=False).serialized_bytes
+                        except Exception as e:
+                            got = 'EXC ' + type(e).__name__
+                    p.n['encodes'] += 1
+                    if got != msgs[k][0]:
+                        p.violation('encoder-history|%s' % ('compiled' if cc else 'plain'), {'history': list(h[:step + 1]), 'compiled_cache': cc},
+                                    'one encoder, messages %r: message %d (tables %r) encodes to %s, independently built %s'
+                                    % ([ENC_HIST[x][:2] for x in h[:step + 1]], step, ENC_HIST[k][:2],
+                                       got if isinstance(got, str) else got.hex()[-30:], msgs[k][0].hex()[-30:]))
+                        break
+                    p.outcome((k, cc))
+    p.n['nodes'] += p.n['encodes'] + 1
+    p.n['edges'] += p.n['encodes']
+    return p
+
+
 def replay(part, case):
     if part.startswith('tree'):
         return CC.replay_tree(case)
     if part == 'tableB':
         o, d = sweep_case(case)
         return [{'sig': d[0], 'detail': d[1]}] if d else []
+    if part == 'encoder-histories':
+        p = run_encoder_histories(([case['history'][0]], len(case['history'])))
+        return [{'sig': v['sig'], 'detail': v['detail']} for v in p.viol
+                if v['case']['history'] == case['history'] and v['case']['compiled_cache'] == case['compiled_cache']]
     if part.startswith('under-operator'):
         s_ = case['struct']
         p = run_under_operator(([(s_[0], s_[1], [[tuple(x) for x in q] for q in s_[2]], s_[3])], case['env']))
@@ -421,6 +476,11 @@ def main(tier, seed):
     p.n['nodes'], p.n['edges'] = len(cases) + 1, len(cases)
     p.sample(cases[5])
     rep.add_part('fxy', p, bounds={'cases': len(cases)})
+    hl = 3 if tier == 'quick' else 4
+    p = merge_all(run_shards(run_encoder_histories, [([k_], hl) for k_ in range(len(ENC_HIST))]))
+    rep.add_part('encoder-histories', p, bounds={'messages': [str(x[:2]) for x in ENC_HIST], 'length': hl, 'encoders': ['plain', 'compiled cache 2']},
+                 rule='every order of encodes on one Encoder object of messages that share their descriptor list but name table versions '
+                      'defining an element differently; each output compared with the independently built message')
     from mc.checks import c08 as _c08
     uo = [st for st in _c08.under_operator_structs(1 if tier == 'quick' else 2) if '+204' not in st[0]]
     for pname, env in (('under-operator-u1', dict(nsub=1, compressed=False)), ('under-operator-c2', dict(nsub=2, compressed=True))):
